@@ -343,7 +343,7 @@ def process(ctx, case):
 def shard(ctx):
     rec = ctx.rec
     monitors.install_contracts()
-    n = ctx.scale(3000, 100000)
+    n = ctx.scale(30000, 100000)
     i = 0
     while i < n and not rec.expired():
         i += 1
